@@ -53,6 +53,8 @@ type tr struct {
 	packed  map[string]bool   // struct types whose values are opaque handles built / read by pure parameters (--packed S)
 	chans   bool              // channels are opaque handles (--chan)
 	splitTo map[string]string // package path -> file that gets its records and functions (--split)
+	effShape map[string]bool  // functions whose skeleton also records the nesting of the ifs and the object-field reads / writes (--eff-shape F)
+	effMode  bool             // skelCalls adds the reads / writes
 	w       *world
 	fns     map[*types.Func]*fnInfo
 	structs map[*types.TypeName]*structInfo
@@ -69,7 +71,7 @@ func (t *tr) failf(n ast.Node, format string, a ...any) {
 // extraFiles: file name -> text of the files written next to --out (--split)
 var extraFiles = map[string]string{}
 
-func translate(repo, pkgdir string, roots, fuels, params, ifaces, shapes, require, objects, vias, devirts, packeds, splits []string, chans, printShapes bool) (text string, err error) {
+func translate(repo, pkgdir string, roots, fuels, params, ifaces, shapes, require, objects, vias, devirts, packeds, splits, effs []string, chans, printShapes bool) (text string, err error) {
 	defer func() {
 		if r := recover(); r != nil {
 			if u, ok := r.(*unsupported); ok {
@@ -97,6 +99,10 @@ func translate(repo, pkgdir string, roots, fuels, params, ifaces, shapes, requir
 		t.packed[strings.TrimSpace(v)] = true
 	}
 	t.chans = chans
+	t.effShape = map[string]bool{}
+	for _, v := range effs {
+		t.effShape[strings.TrimSpace(v)] = true
+	}
 	t.splitTo = map[string]string{}
 	for _, v := range splits {
 		i := strings.Index(v, "=")
@@ -1305,6 +1311,14 @@ func (t *tr) tryFunction(fi *fnInfo) (text string, err error) {
 func (t *tr) skeleton(fi *fnInfo) string {
 	sig := fi.obj.Type().(*types.Signature)
 	pre := fmt.Sprintf("%d>%d:", sig.Params().Len(), sig.Results().Len())
+	if t.effShape[fnKey(fi)] {
+		// strict: the nesting of the conditions (branches sorted) with, per statement, the calls and the
+		// reads (L) of object fields in source order -- for functions whose proofs depend on where the
+		// heap is read (two pointers may be equal)
+		t.effMode = true
+		defer func() { t.effMode = false }()
+		return pre + "eff:" + t.skelList(fi, fi.decl.Body.List)
+	}
 	full := t.skelList(fi, fi.decl.Body.List)
 	hasLoop := false
 	ast.Inspect(fi.decl.Body, func(n ast.Node) bool {
@@ -1333,6 +1347,40 @@ func (t *tr) skelCalls(fi *fnInfo, n ast.Node) string {
 	var b strings.Builder
 	if n == nil {
 		return ""
+	}
+	if t.effMode {
+		// the places written by this statement
+		target := map[ast.Expr]bool{}
+		rw := map[ast.Expr]bool{}
+		switch x := n.(type) {
+		case *ast.AssignStmt:
+			for _, l := range x.Lhs {
+				target[ast.Unparen(l)] = true
+				if x.Tok != token.ASSIGN && x.Tok != token.DEFINE {
+					rw[ast.Unparen(l)] = true
+				}
+			}
+		case *ast.IncDecStmt:
+			target[ast.Unparen(x.X)] = true
+			rw[ast.Unparen(x.X)] = true
+		}
+		ast.Inspect(n, func(m ast.Node) bool {
+			switch x := m.(type) {
+			case *ast.FuncLit, *ast.BlockStmt:
+				return false
+			case *ast.SelectorExpr:
+				sel, isSel := fi.pk.info.Selections[x]
+				if tv, ok := fi.pk.info.Types[x.X]; ok && isSel && sel.Kind() == types.FieldVal && t.objectOf(tv.Type) != nil {
+					// only the READS: a rewrite that reads a field at another point (before instead of
+					// after a write) may see another value when two pointers are equal; a dropped or
+					// changed WRITE must stay inside the shape, so that it breaks the theorem
+					if rw[x] || !target[x] {
+						b.WriteString("L" + x.Sel.Name + ";")
+					}
+				}
+			}
+			return true
+		})
 	}
 	ast.Inspect(n, func(n ast.Node) bool {
 		switch x := n.(type) {
